@@ -302,6 +302,26 @@ func (p c12) start(c *core.Ctx) {
 	for _, l := range loaders {
 		l.(world.LoggedLoader).Core().Log = r.Log
 	}
+	// an importing loader: while it is loading it contributes further loaders to the configuration it belongs
+	// to (AddLoaders from inside LoadConfig). Whether the contributed ones are sequenced in this pass or in the
+	// next one is the container's choice - each pass as observed obeys the contract.
+	imported := map[string]bool{}
+	if nl > 0 && twin == nil && c.Rng.Intn(5) == 0 {
+		boot := loaders[c.Rng.Intn(nl)].(world.LoggedLoader).Core()
+		impP := world.NewLoader(2, "imported-priority", math.MinInt, []byte("imp: p\n"), r.Log)
+		impO := world.NewLoader(1, "imported-ordered", -77, []byte("imp: o\n"), r.Log)
+		ldClass["imported-priority"] = part{100, 0, math.MinInt}
+		ldClass["imported-ordered"] = part{101, 1, -77}
+		imported["imported-priority"], imported["imported-ordered"] = true, true
+		done := false
+		boot.Probe = func() {
+			if !done {
+				done = true
+				r.App.AddLoaders(impP.(configure.Loader), impO.(configure.Loader))
+			}
+		}
+		c.Count("starts_with_an_importing_loader", 1)
+	}
 	r.Go()
 	c.Count("starts", 1)
 	if r.Outcome() != "ok" {
@@ -319,6 +339,13 @@ func (p c12) start(c *core.Ctx) {
 		}
 	}
 	for name := range ldClass {
+		if imported[name] {
+			if seenL[name] > 1 {
+				c.Fail("", fmt.Sprintf("contributed loader %s was invoked %d times in one pass", name, seenL[name]), failDetail(sc, r, nil))
+				return
+			}
+			continue
+		}
 		if seenL[name] != wantLoads[name] {
 			c.Fail("", fmt.Sprintf("loader %s was invoked %d times", name, seenL[name]), failDetail(sc, r, nil))
 			return
